@@ -105,6 +105,7 @@ _base_search = search
 
 def correspond(ctx):  # noqa: F811
     _base_correspond(ctx)
+    _sched.restart_part(ctx, PROP, ctx.scale(300, 3000))
     ctx.rule += ("; + dependency collection: 2-6 really submitted (dry-run) tasks, each embedding earlier ones at random positions (direct, list, dict, Meta, nested "
                  "configuration 1-3 deep, list of nested, task output direct/list/dict/nested, pre-task, pre-task's nested configuration, init task, explicit)")
     _deps_part(ctx, ctx.scale(120, 1500))
